@@ -214,6 +214,28 @@ Theorem C16_truth_texts : forall o m text m' a rest z rr,
        i_value e = standardize fzero VNone (aligned_unit (m_las m))).
 Proof. exact (write_truth_texts fmtv fmt_diff fmt_pi fstr fzero numeq). Qed.
 
+(* ---- the same facts under the names listed in harness/props/c16.py ---- *)
+Theorem C16_header_frame : forall o m text m',
+  write o m = WOk text m' ->
+  (Forall2 cframe (s_items (l_curves (m_las m))) (s_items (l_curves (m_las m'))) /\
+   tl (s_items (l_curves (m_las m'))) = tl (s_items (l_curves (m_las m)))) /\
+  l_params (m_las m') = map_section (stdf fzero) (l_params (m_las m)) /\
+  Forall2 (wframe_n fzero (s_transforms (l_well (m_las m))))
+          (s_items (l_well (m_las m))) (s_items (l_well (m_las m'))) /\
+  match wo_wrap o with
+  | None => l_version (m_las m') = l_version (m_las m)
+  | Some b => l_version (m_las m') =
+              mksect (set_item (s_transforms (l_version (m_las m))) (s2l "WRAP") (wrap_item b)
+                               (s_items (l_version (m_las m))))
+                     (s_transforms (l_version (m_las m)))
+  end.
+Proof. exact (write_header_frame fmtv fmt_diff fmt_pi fstr fzero numeq). Qed.
+
+Theorem C16_version_in_memory : forall o1 o2 m t1 t2 m1 m2,
+  wo_wrap o1 = wo_wrap o2 ->
+  write o1 m = WOk t1 m1 -> write o2 m = WOk t2 m2 -> m1 = m2.
+Proof. exact (write_state_wrap_only fmtv fmt_diff fmt_pi fstr fzero numeq). Qed.
+
 End C16.
 
 (* ---- non-vacuity: a small LASFile and toy oracles ------------------------------------------------ *)
@@ -311,4 +333,6 @@ Print Assumptions C16_need_stop_differs_float.
 Print Assumptions C16_units_aligned.
 Print Assumptions C16_truth.
 Print Assumptions C16_truth_texts.
+Print Assumptions C16_header_frame.
+Print Assumptions C16_version_in_memory.
 Print Assumptions C16_idempotent_refuted_dup_wrap.
